@@ -285,4 +285,33 @@ theorem csrOK_of_wf (c : Csr Rat) (h : c.WF = true) (hsq : c.nRow = c.nCol) : Cs
     rw [hsq]
     simpa [Array.getD, hp] using this
 
+/-! ### the C `int` bound of `n_labels = labels[i] + 1` -/
+
+/-- two's-complement wrap of a C `int` -/
+def wrap32 (z : Int) : Int := (z + 2 ^ 31) % 2 ^ 32 - 2 ^ 31
+
+theorem nLabels_step_lt : ∀ (l : List Int) (m : Nat), (m : Int) < 2 ^ 31 → (∀ x ∈ l, x < 2 ^ 31 - 1) →
+    ((l.foldl nLabelsStep m : Nat) : Int) < 2 ^ 31 := by
+  intro l
+  induction l with
+  | nil => intro m hm _; exact hm
+  | cons a r ih =>
+    intro m hm hl
+    simp only [List.foldl_cons]
+    apply ih
+    · unfold nLabelsStep
+      have ha := hl a (List.mem_cons_self ..)
+      split
+      · rename_i h
+        have : 0 ≤ a + 1 := by omega
+        rw [Int.toNat_of_nonneg this]
+        omega
+      · exact hm
+    · intro x hx; exact hl x (List.mem_cons_of_mem _ hx)
+
+/-- with all labels below `INT32_MAX` the size of `votes` is a C `int` (no wrap in `labels[i] + 1`) -/
+theorem nLabels_lt_int32 (labels : List Int) (h : ∀ l ∈ labels, l < 2 ^ 31 - 1) : (nLabels labels : Int) < 2 ^ 31 := by
+  unfold nLabels
+  exact nLabels_step_lt labels 0 (by decide) h
+
 end SkNet.KVote
